@@ -23,6 +23,7 @@ theorem gen_structure :
     Gen.Session.openStreamCheckUnderLock = true ∧ Gen.Session.openStreamIncrs = 1 ∧
     Gen.Session.openStreamIncrAfterUnlock = true ∧
     Gen.Session.recvCheckUnderLock = true ∧ Gen.Session.recvInsertEnqueueUnderLock = true ∧
+    Gen.Session.recvEnqueueNonBlocking = true ∧
     Gen.Session.recvTombstoneDrops = true ∧ Gen.Session.recvSessionCloseIsPassiveClose = true ∧
     Gen.Session.recvDecodeErrorReturnsFirst = true ∧
     Gen.Session.closeStreamCASFirst = true ∧ Gen.Session.closeStreamPipeCloseUnconditional = true ∧
@@ -92,7 +93,7 @@ theorem insertOpen_count (s : St) (h : CountInv s) : CountInv (insertOpen s).1 :
     omega
 
 theorem step_count (s : St) (e : Ev) (h : CountInv s) : CountInv (step s e).1 := by
-  obtain ⟨hl, hi, _, _, _, _, _, _, _, _, _, hd, _, _, hs, _⟩ := gen_structure
+  obtain ⟨hl, hi, _, _, _, _, _, _, _, _, _, _, hd, _, _, hs, _⟩ := gen_structure
   cases e with
   | openCheck => simp only [step, hl, if_true]; exact h
   | openInsert =>
@@ -113,7 +114,14 @@ theorem step_count (s : St) (e : Ev) (h : CountInv s) : CountInv (step s e).1 :=
     · exact h
     · split
       · exact h
-      · simp only [CountInv, nOpen] at *; omega
+      · split
+        · simp only [CountInv, nOpen] at *; omega
+        · simp only [CountInv, nOpen] at *; omega
+  | tmoCas =>
+    simp only [step]
+    split
+    · split <;> simpa [CountInv] using h
+    · exact h
   | recvIncr =>
     simp only [step]
     split
@@ -204,7 +212,16 @@ theorem step_torn (s : St) (e : Ev) (h : Torn s) : Torn (step s e).1 := by
     · rename_i hc
       split
       · exact h
-      · intro hs; exact absurd (h hs).1 hc
+      · split
+        · intro hs; exact absurd (h hs).1 hc
+        · intro hs; exact absurd (h hs).1 hc
+  | tmoCas =>
+    simp only [step]
+    split
+    · split
+      · simpa [Torn] using h
+      · intro hs; have h' := h hs; exact ⟨rfl, h'.2.1, h'.2.2⟩
+    · exact h
   | recvIncr => simp only [step]; split; exact h; simpa [Torn] using h
   | csCAS id =>
     simp only [step]
@@ -295,7 +312,18 @@ theorem step_tmo (s : St) (e : Ev) (h : TmoInv s) : TmoInv (step s e).1 := by
     · exact hb
     · unfold insertOpen; simp only; split <;> exact hb
   | openIncr => simp only [step]; split <;> exact hb
-  | recvNew id => simp only [step]; split; exact hb; split <;> exact hb
+  | recvNew id =>
+    simp only [step]
+    split
+    · exact hb
+    · split
+      · exact hb
+      · split <;> exact hb
+  | tmoCas =>
+    simp only [step]
+    split
+    · split <;> exact hb
+    · exact hb
   | recvIncr => simp only [step]; split <;> exact hb
   | csCAS id => simp only [step]; split <;> exact hb
   | csTomb id => simp only [step]; split <;> exact hb
@@ -322,6 +350,83 @@ theorem c12_timeout (sp : Bool) (evs : List Ev) : (run (init sp) evs).tmoBusy = 
     | nil => intro s h; exact h
     | cons e r ih => intro s h; exact ih _ (step_tmo s e h)
   exact (this evs (init sp) ⟨by simp [CountInv, init, nOpen], rfl⟩).2
+
+/-- the accept queue never holds more than the backlog: the enqueue under `streamsM` can therefore always be the
+non-blocking `select` case (this is what removes the one blocking operation under a lock that `c12_lock_order` used to
+assume away) -/
+theorem c12_backlog_bounded (sp : Bool) (evs : List Ev) :
+    ((run (init sp) evs).accq.length : Int) ≤ max Gen.Session.acceptBacklog 0 := by
+  have hb : (0 : Int) ≤ Gen.Session.acceptBacklog := by decide
+  have key : ∀ (evs : List Ev) (s : St), (s.accq.length : Int) ≤ Gen.Session.acceptBacklog →
+      ((run s evs).accq.length : Int) ≤ Gen.Session.acceptBacklog := by
+    intro evs
+    induction evs with
+    | nil => intro s h; exact h
+    | cons e r ih =>
+      intro s h
+      apply ih
+      cases e with
+      | recvNew id =>
+        simp only [step]
+        split
+        · exact h
+        · split
+          · exact h
+          · split
+            · exact h
+            · rename_i hlt
+              simp only [List.length_append, List.length_cons, List.length_nil]
+              omega
+      | accept =>
+        simp only [step]
+        split
+        · exact h
+        · split
+          · rename_i x r' hq
+            rw [hq] at h
+            simp only [List.length_cons] at h
+            simp only
+            omega
+          · split <;> exact h
+      | openCheck => simp only [step]; split; exact h; split <;> exact h
+      | openInsert =>
+        simp only [step]
+        split
+        · split
+          · exact h
+          · unfold insertOpen; simp only; split <;> exact h
+        · split
+          · exact h
+          · unfold insertOpen; simp only; split <;> exact h
+      | openIncr => simp only [step]; split <;> exact h
+      | recvIncr => simp only [step]; split <;> exact h
+      | csCAS id => simp only [step]; split <;> exact h
+      | csTomb id => simp only [step]; split <;> exact h
+      | csDecr => simp only [step]; split <;> exact h
+      | cas => simp only [step]; split <;> exact h
+      | sweep => simp only [step]; split <;> exact h
+      | closeAll => simp only [step]; split <;> exact h
+      | checkTimeout => simp only [step]; split <;> exact h
+      | tmoCas => simp only [step]; split; split <;> exact h; exact h
+      | addConn => exact h
+  have := key evs (init sp) (by simp [init]; exact hb)
+  omega
+
+/-! ## the inactivity timer, full statement (open finding) -/
+
+/-- the property as stated: the timer closes a session ONLY WHILE it has no open stream — at the moment the timer
+goroutine's `Close()` takes effect (its CAS on `closed`), no stream is open -/
+def c12_timeout_full : Prop := ∀ (sp : Bool) (evs : List Ev), (run (init sp) evs).tmoCasBusy = false
+
+/-- **C12 (open finding).** `checkTimeout` tests `streamCount() == 0 && !IsClosed()` and only then calls `Close()`:
+a stream opened in between is closed with the session. Five-step witness; `c12_timeout` above is the partial
+statement that does hold (the timer never *initiates* a close while a stream is open). -/
+theorem c12_timeout_witness : ¬ c12_timeout_full := by
+  intro h
+  have := h false [.checkTimeout, .openCheck, .openInsert, .openIncr, .tmoCas]
+  revert this
+  have := gen_structure
+  decide
 
 /-- **C12 (connections).** `closeAll` leaves every pooled connection closed. -/
 theorem c12_conns (s : St) (h : s.broken = false) : ∀ c ∈ (step s .closeAll).1.conns, c = false := by
